@@ -119,6 +119,8 @@ def _gen_for(stream, seed):
             z = rng.randrange(N)
             vals[z] = 0.0
             cfg["capital"] = {"kind": rng.choice(["ndarray", "series", "dataframe"]), "values": vals}
+            if cfg["capital"]["kind"] == "ndarray" and random.Random(seed ^ 0x115).random() < 0.5:
+                cfg["capital"]["as_list"] = True
             regs, secs, cats = scen.labels(tb)
             key = f"{regs[z // tb['n']]}|{secs[z % tb['n']]}"
             sc["events"] = [{"type": "recovery", "occ": rng.randint(1, 3), "dur": 2, "name": None, "emf": cfg["monetary_factor"],
